@@ -17,9 +17,8 @@ LEVEL = "model_checking"
 
 # (shape, variant, preemption bound)
 QUICK = ([("P1-single", v, 1) for v in projects.VARIANTS]
-         + [("P2-fan", "clean", 1), ("P2-fan", "warn", 1), ("P2-fan", "err", 0), ("P2-fan", "class", 0)]
-         + [("P3-diamond", v, 0) for v in projects.VARIANTS]
-         + [("P4-chain", "clean", 0), ("P4-chain", "class", 0)]
+         + [("P2-fan", "clean", 1), ("P2-fan", "warn", 0), ("P2-fan", "err", 0), ("P2-fan", "class", 0)]
+         + [("P3-diamond", "clean", 0)]
          + [("P6-untouched-import", "clean", 1), ("P6-untouched-import", "err", 0), ("P7-untouched-import-fan", "clean", 0), ("P8-multi-entry-cycle", "clean", 0)])
 THOROUGH = ([("P1-single", v, 3) for v in projects.VARIANTS]
             + [("P2-fan", v, 2) for v in projects.VARIANTS]
